@@ -14,9 +14,9 @@ type PipeListener struct {
 	// transports; a plain *net.TCPConn does not). The bytes were read all the same.
 	LateEvery int
 	mu        sync.Mutex
-	ch     chan net.Conn
-	closed bool
-	done   chan struct{}
+	ch        chan net.Conn
+	closed    bool
+	done      chan struct{}
 }
 
 // NewPipeListener creates the listener.
